@@ -175,9 +175,13 @@ package vmm
 //@   loop 1 decreases startPage + pageCount - curPage
 
 // Unmap, as seen by callers outside vmm: it only changes page-table memory.
+// (the pages handed to Unmap are logged too)
+//@ ghost unmapCalls uintptr
+//@ ghost unmapLogPage map[uintptr]mm.Page
 //@ func Unmap~callers(page mm.Page) (err *kernel.Error)
 //@   trusted
-//@   modifies pageTables
+//@   modifies pageTables, unmapCalls, unmapLogPage
+//@   ensures unmapCalls == old(unmapCalls) + 1 && unmapLogPage == upd(old(unmapLogPage), old(unmapCalls), page)
 
 // ---- temporary mapping, the shared zero frame, faults (C06) -----------------------------------
 // MapTemporary: one Map call for the fixed temporary page with Present|RW - or, once the zero
@@ -217,9 +221,10 @@ package vmm
 //@   property C06
 //@   inline walk
 //@   requires regs != nil
-//@   modifies mem, mm.allocState, mapCalls, mapLogPage, mapLogFrame, mapLogFlags, pageTables, cpu.flushes, cpu.flushLog, kfmt.outLen, kfmt.out, elems(uint8)
+//@   modifies mem, mm.allocState, mapCalls, mapLogPage, mapLogFrame, mapLogFlags, pageTables, unmapCalls, unmapLogPage, cpu.flushes, cpu.flushLog, kfmt.outLen, kfmt.out, elems(uint8)
 //@   panics-unless old(mapped(faultPageAddr())) && old(mem64(pte3(faultPageAddr()))) & 2 == 0 && old(mem64(pte3(faultPageAddr()))) & 0x200 != 0
 //@   ensures tmp: mapCalls == old(mapCalls) + 1 && mapLogPage[old(mapCalls)] == mm.Page(tempMappingAddr >> 12) && mapLogFlags[old(mapCalls)] == FlagPresent|FlagRW
+//@   ensures untmp: unmapCalls == old(unmapCalls) + 1 && unmapLogPage[old(unmapCalls)] == mm.Page(tempMappingAddr >> 12)
 //@   ensures entry: mem64(pte3(faultPageAddr())) == cowEntry(old(mem64(pte3(faultPageAddr()))), mapLogFrame[old(mapCalls)])
 //@   ensures copy: forall(i, uintptr, i < 4096 ==> mem8(tempMappingAddr + i) == old(mem8(faultPageAddr() + i)))
 //@   ensures rest: forall(a, uintptr, a - tempMappingAddr >= 4096 && a - pte3(faultPageAddr()) >= 8 ==> mem8(a) == old(mem8(a)))
@@ -230,7 +235,7 @@ package vmm
 //@ func reserveZeroedFrame() (err *kernel.Error)
 //@   property C06
 //@   requires !protectReservedZeroedPage
-//@   modifies ReservedZeroedFrame, protectReservedZeroedPage, mem, mm.allocState, mapCalls, mapLogPage, mapLogFrame, mapLogFlags, pageTables
+//@   modifies ReservedZeroedFrame, protectReservedZeroedPage, mem, mm.allocState, mapCalls, mapLogPage, mapLogFrame, mapLogFlags, pageTables, unmapCalls, unmapLogPage
 //@   ensures ok: err == nil ==> protectReservedZeroedPage && mapLogFrame[old(mapCalls)] == ReservedZeroedFrame && forall(i, uintptr, i < 4096 ==> mem8(tempMappingAddr + i) == 0)
 //@   ensures fail: err != nil ==> !protectReservedZeroedPage && mem == old(mem)
 
@@ -255,7 +260,7 @@ package vmm
 //@ func (pdt PageDirectoryTable) Unmap(page mm.Page) (err *kernel.Error)
 //@   property C04
 //@   requires uintptr(pdt.pdtFrame) < 0x10000000000 && cpu.cr3 < 0x10000000000000
-//@   modifies mem, pageTables, cpu.flushes, cpu.flushLog
+//@   modifies mem, pageTables, unmapCalls, unmapLogPage, cpu.flushes, cpu.flushLog
 //@   at call unmapFn 1: assert mm.Frame(cpu.cr3 >> 12) != pdt.pdtFrame ==> mem64(lastEntryAddr()) == withFrame(old(mem64(lastEntryAddr())), pdt.pdtFrame) && cpu.flushes == old(cpu.flushes) + 1 && cpu.flushLog[old(cpu.flushes)] == lastEntryAddr()
 //@   ensures active: mm.Frame(cpu.cr3 >> 12) == pdt.pdtFrame ==> mem == old(mem) && cpu.flushes == old(cpu.flushes)
 //@   ensures inactive: mm.Frame(cpu.cr3 >> 12) != pdt.pdtFrame ==> mem64(lastEntryAddr()) == withFrame(old(mem64(lastEntryAddr())), mm.Frame(cpu.cr3 >> 12)) && cpu.flushes == old(cpu.flushes) + 2 && cpu.flushLog[old(cpu.flushes) + 1] == lastEntryAddr()
@@ -272,7 +277,7 @@ package vmm
 //@ func (pdt *PageDirectoryTable) Init(pdtFrame mm.Frame) (err *kernel.Error)
 //@   property C04
 //@   requires pdt != nil && uintptr(pdtFrame) < 0x10000000000
-//@   modifies pdt.pdtFrame, mem, mapCalls, mapLogPage, mapLogFrame, mapLogFlags, pageTables
+//@   modifies pdt.pdtFrame, mem, mapCalls, mapLogPage, mapLogFrame, mapLogFlags, pageTables, unmapCalls, unmapLogPage
 //@   ensures set: pdt.pdtFrame == pdtFrame
 //@   ensures atmost: mapCalls - old(mapCalls) <= 1
 //@   ensures active: uintptr(pdtFrame) << 12 == cpu.cr3 ==> err == nil && mem == old(mem) && mapCalls == old(mapCalls)
@@ -328,7 +333,7 @@ package vmm
 //@ func setupPDTForKernel(kernelPageOffset uintptr) (err *kernel.Error)
 //@   property C05
 //@   requires wfReserve() && recursiveSlotOK() && cpu.cr3 < 0x10000000000000 && mapCalls < 0x1000000000000
-//@   modifies kernelPDT.pdtFrame, mm.allocState, elems(*kernel.Error), mem, mapCalls, mapLogPage, mapLogFrame, mapLogFlags, pageTables, cpu.flushes, cpu.flushLog, cpu.cr3
+//@   modifies kernelPDT.pdtFrame, mm.allocState, elems(*kernel.Error), mem, mapCalls, mapLogPage, mapLogFrame, mapLogFlags, pageTables, unmapCalls, unmapLogPage, cpu.flushes, cpu.flushLog, cpu.cr3
 //@   ensures active: err == nil ==> cpu.cr3 == uintptr(kernelPDT.pdtFrame) << 12
 //@   ensures notactive: err != nil ==> cpu.cr3 == old(cpu.cr3)
 //@   ensures reserved: err == nil ==> forall(k, uintptr, k < (tempMappingAddr - earlyReserveLastUsed) >> 12 ==> mapLogPage[mapCalls - ((tempMappingAddr - earlyReserveLastUsed) >> 12) + k] == mm.Page(earlyReserveLastUsed >> 12) + mm.Page(k) && mapLogFlags[mapCalls - ((tempMappingAddr - earlyReserveLastUsed) >> 12) + k] == FlagPresent|FlagRW && mapLogFrame[mapCalls - ((tempMappingAddr - earlyReserveLastUsed) >> 12) + k] == mm.Frame((mem64(pte3(earlyReserveLastUsed + (k << 12))) & 0x000ffffffffff000) >> 12))
